@@ -10,7 +10,7 @@ GPR = ['eax', 'ebx', 'ecx', 'edx', 'esi', 'edi', 'esp', 'ebp']
 FLAGS1 = ['zf', 'nf', 'pf', 'of', 'cf', 'df', 'af']
 STRING_NAMES = ('movs', 'stos', 'lods', 'cmps', 'scas')
 
-CONST_BASE = 0x1000
+CONST_BASE = 0x200000        # far from every valuation of the symbolic bases, also when those wrap
 
 # ------------------------------------------------------------ op -> real IR
 
@@ -127,6 +127,40 @@ def key_ok(k):
             return i.name in ('init_ebx', 'init_esp')
     return False
 
+def mems_in(e, out):
+    c = e.__class__.__name__
+    if c == 'ExprMem':
+        out.append(e)
+        mems_in(e.arg, out)
+    elif c == 'ExprOp':
+        for a in e.args:
+            mems_in(a, out)
+    elif c == 'ExprSlice':
+        mems_in(e.arg, out)
+    elif c == 'ExprCompose':
+        for a in e.args:
+            mems_in(a[0], out)
+    elif c == 'ExprCond':
+        mems_in(e.cond, out); mems_in(e.src1, out); mems_in(e.src2, out)
+    elif c == 'ExprAff':
+        mems_in(e.dst, out); mems_in(e.src, out)
+    return out
+
+def addresses_ok(m, affs):
+    """Guard (iii) for LOADS as well: every memory operand of the instruction must, in the current state,
+    address a constant or base+constant cell; otherwise the machine cannot decide aliasing (and the
+    property does not ask it to)."""
+    s = sut()
+    for a in affs:
+        for mem in mems_in(a, []):
+            try:
+                adr = s.X.expr_simp(m.eval_expr(mem.arg, {}))
+            except Exception:
+                return False
+            if not key_ok(adr):
+                return False
+    return True
+
 def assemble(line):
     s = sut()
     c = s.A.x86mnemo.asm(line)
@@ -214,6 +248,8 @@ def run_real(ops):
                     # guard (vi): ill-typed lifted semantics (C11's business) - nothing to compare against
                     raise Discard('ill-typed-lift:%s' % i.m.name)
             rep = is_rep_string(i)
+            if not rep and not addresses_ok(m, affs):
+                raise Discard('foreign-address')
             t = {'affs': ser, 'rep': rep, 'name': i.m.name, 'prefix': list(i.prefix)}
             if rep:
                 cnt = m.pool[s.regs['ecx']]
@@ -315,6 +351,17 @@ def check_history(ops, vals, dense=True, compare_flags=False):
                 'detail': {'insn': trace[-1]['name'], 'exception': trace[-1]['raised']}}
     if any(t.get('rep') and not t.get('concrete_count') for t in trace):
         return {'status': 'discard', 'reason': 'symbolic-count'}
+    # guard (vii): read-backs are expressed relative to the region (constant / data base / stack) a written
+    # byte belongs to, found by distance under the valuation.  A CONSTANT cell that lies within reach of a
+    # symbolic base under some valuation would be probed through a symbolic address the machine rightly
+    # treats as unrelated (its non-aliasing assumption): such a history/valuation pair is ambiguous.
+    consts = [int(k.arg) for k in m.pool.pool_mem if k.__class__.__name__ == 'ExprInt']
+    for val in vals:
+        for sym in ('init_ebx', 'init_esp'):
+            for c in consts:
+                d = (c - val[sym]) & M32
+                if d < 0x1000 or d > M32 - 0x1000:
+                    return {'status': 'discard', 'reason': 'alias-ambiguous-valuation'}
     refs = []
     try:
         for val in vals:
@@ -544,7 +591,7 @@ def gen_string_program(rng, base):
         ins(gen_move_line(rng))
     return ops
 
-FLAG_MOVERS = ['sete al', 'sete ah', 'setb bh', 'setne dh', 'setl dl', 'setns ch', 'setbe cl', 'seto al', 'cmove eax, edx', 'cmovb ecx, eax',
+FLAG_MOVERS = ['sete al', 'sete ah', 'setb dh', 'setne dh', 'setl dl', 'setns ch', 'setbe cl', 'seto al', 'cmove eax, edx', 'cmovb ecx, eax',
                'cmovne edx, ecx', 'cmovz ax, cx', 'cmovb dx, cx', 'cmovs cx, ax', 'lahf', 'sahf', 'pushfd', 'popfd', 'pop eax', 'pop ecx', 'cmc', 'clc', 'stc',
                'sete BYTE PTR [ebx+1]', 'setb BYTE PTR [ebx+2]', 'mov BYTE PTR [ebx+3], ah', 'mov DWORD PTR [ebx+4], eax']
 def gen_flags_program(rng):
